@@ -135,7 +135,7 @@ def cached1(fam, progs, tier, module, cap, pb):
 
 
 C19_STAGES = [("tk_corpus", 0, 0), ("tk_mpsc", 24, 250), ("tk_oneshot", 16, 120), ("tk_notify", 20, 200),
-              ("tk_sem", 20, 200), ("tk_mutex", 12, 120), ("tk_watch", 20, 200), ("tk_rwlock", 16, 150)]
+              ("tk_sem", 20, 200), ("tk_mutex", 12, 120), ("tk_watch", 20, 200), ("tk_rwlock", 16, 150), ("tk_cancel", 16, 150)]
 C19_ASSUME = [
     "reference models (spec/Tokio.tla): mpsc bounded/unbounded incl. blocking and try variants, close, drops, capacity(); "
     "oneshot; Notify (notify_one / notify_waiters / notified().await); Semaphore (acquire_many_owned, try, add_permits, close, "
@@ -144,7 +144,9 @@ C19_ASSUME = [
     "result open the model admits every documented answer",
     "watch (send, borrow, borrow_and_update, changed, has_changed, drops; receivers cloned before the start) and RwLock "
     "(read / write / try variants / downgrade over a protected value; a failed try leaves nothing, rw_get/rw_set act only under a guard)",
-    "not modelled: broadcast, OnceCell, time, send_modify / wait_for / subscribe of watch, cancellation of a pending operation (abort / select); "
+    "cancellation: abort of a future task pending in notified() / acquire / lock (it owns no channel handles): the request leaves "
+    "the queue, permits already handed over go back, a notification received through notify_one is passed on",
+    "not modelled: broadcast, OnceCell, time, send_modify / wait_for / subscribe of watch, select!-style cancellation inside a task; "
     "task spawning and JoinHandle are covered on the underlying layer by C17",
 ]
 
